@@ -669,4 +669,40 @@ def part_c13(tier, seed):
             b.case((G.describe(c)['nodes'], G.describe(c)['lines'], cuda, T is None), True, sample={'circuit': str(sig), 'cuda': cuda, 'T': T, 'caps': caps if isinstance(caps, int) else 'mixed'})
             for clause, msg in c13_checks(c, delays, stim, n, opts, caps, a_ctrl, T, cuda):
                 b.violation(f'bounded:C13:{clause}', f'{clause} on {sig}: {msg}', 'bounded.wave_parts:run_c13', args, function='kyupy.wave_sim')
+    # overflow propagation: a gate with capacity 4 toggles four times (its last pulse is dropped, terminator TMAX_OVL); a second gate is enabled only
+    # during a window.  Whenever the second gate's indicator is clear its waveform must be the unlimited one -- in particular when its own waveform is empty.
+    for c, sig in overflow_circuits():
+        rng = random.Random(sseed(('c13-ovl', str(sig), seed)) & 0xfffffff)
+        for cuda in (False, True):
+            n = 6
+            stim = {}
+            base = [1.0, 2.0, 3.0, 4.0]
+            for i in range(4):
+                stim[i] = [(0, [base[i] + (0.25 * rng.randrange(0, 3) if lane >= 4 else 0.0)]) for lane in range(n)]
+            wins = [(2.5, 5.0), (2.75, 3.75), (0.5, 1.5), (3.25, 6.0), (2.25 + 0.25 * rng.randrange(0, 6), 4.0 + 0.25 * rng.randrange(0, 8)), (0.25 * rng.randrange(1, 12), 3.0 + 0.25 * rng.randrange(0, 12))]
+            stim[4] = [(0, [u1, max(u2, u1 + 0.25)]) for u1, u2 in wins]
+            delays = np.full((1, len(c.lines), 2, 2), 0.25, dtype=np.float32)
+            opts = dict(c_reuse=False, strip_forks=False)
+            args = replay_args(c, delays, stim, n, opts, 4, a_ctrl=None, T=None, cuda=cuda)
+            b.case((str(sig), cuda), True, sample={'circuit': str(sig), 'cuda': cuda, 'caps': 4})
+            for clause, msg in c13_checks(c, delays, stim, n, opts, 4, None, None, cuda):
+                b.violation(f'bounded:C13:{clause}', f'{clause} on {sig}: {msg}', 'bounded.wave_parts:run_c13', args, function='kyupy.wave_sim._wave_eval')
     return b
+
+
+def overflow_circuits():
+    from kyupy.circuit import Circuit, Node, Line
+    for second in ('AND2', 'NOR2', 'OR2'):
+        c = Circuit('ovlprop_' + second)
+        ins = [Node(c, nm, 'input') for nm in ('a', 'b', 'c', 'd', 'y')]
+        o = Node(c, 'o', 'output')
+        for n_ in ins + [o]:
+            c.io_nodes.append(n_)
+        x = Node(c, 'x', 'XOR4')
+        for k in range(4):
+            Line(c, ins[k], (x, k))
+        g = Node(c, 'g', second)
+        Line(c, x, (g, 0))
+        Line(c, ins[4], (g, 1))
+        Line(c, g, o)
+        yield c, ('special', 'overflow-propagation-' + second)
